@@ -248,7 +248,8 @@ impl Engine for ReaderEngine {
             // B shares a prefix with A (state keyed by the first bytes of a frame must not leak)
             let mut b = frames[0].clone();
             let n = b.len();
-            let k = 1 + rng.usize_below(n);
+            // often exactly "same body, different parity" (last three bytes)
+            let k = if n > 3 && rng.chance(0.4) { n - 3 } else { 1 + rng.usize_below(n) };
             for x in b.iter_mut().skip(k) {
                 *x = rng.next_u64() as u8;
             }
@@ -297,8 +298,40 @@ impl Engine for ReaderEngine {
         let mut out = Outcome::default();
         let mut h = Fnv::new();
         let frames: Vec<Vec<u8>> = sc.frames.iter().map(|s| wire::unhex(s)).collect();
-        // reference: decoding the slice (fault-free by construction)
+        // purity across decodes: the result for a byte string must not depend on what was decoded
+        // before it. Each frame is decoded from the slice once after an unrelated fixed frame and
+        // once after every other frame of the scenario; all results must agree.
+        let decode_slice = |b: &[u8]| -> String {
+            match catch_unwind(AssertUnwindSafe(|| Frame::from_bytes(b))) {
+                Ok(r) => render(&r),
+                Err(_) => {
+                    let (loc, msg) = take_panic().unwrap_or_default();
+                    // a panic of the slice decoder is C01's subject; here it only matters that
+                    // the reader path behaves identically
+                    format!("Panic {} {}", short_loc(&loc), msg)
+                }
+            }
+        };
+        const NEUTRAL: [u8; 7] = [0x5d, 0x3c, 0x64, 0x88, 0x1d, 0x3f, 0x8c]; // a DF11 all-call reply
+        // reference: decoding the slice (fault-free by construction), right after the neutral frame
         let mut reference: Vec<Option<String>> = vec![None; frames.len()];
+        for (i, x) in frames.iter().enumerate() {
+            let _ = decode_slice(&NEUTRAL);
+            let base = decode_slice(x);
+            reference[i] = Some(base.clone());
+            for (j, y) in frames.iter().enumerate() {
+                if i == j {
+                    continue;
+                }
+                let _ = decode_slice(y);
+                let after = decode_slice(x);
+                out.probe("order_dependence_judged");
+                if after != base && !base.starts_with("Panic") {
+                    out.violate("C19:result-depends-on-previous-decode", format!("bytes {} decode to\n  {base}\nafter an unrelated frame, but to\n  {after}\ndirectly after decoding {}", sc.frames[i], sc.frames[j]));
+                }
+            }
+        }
+        let _ = decode_slice(&NEUTRAL);
         let mut state = Fnv::new();
         for (k, dec) in sc.decodes.iter().enumerate() {
             let Some(bytes) = frames.get(dec.frame) else { continue };
@@ -501,6 +534,7 @@ impl Engine for ReaderEngine {
             "truncated_or_overlong_buffer_with_eintr",
             "repeated_or_interleaved_decode",
             "decode_started_at_nonzero_stream_offset",
+            "order_dependence_judged",
         ]
     }
 
